@@ -75,11 +75,12 @@ def scn_from_hist(rng, i, hs, h, l, na):
         if op in ('syn', 'trk'):
             gap, gk, eos = int(st[1]), st[2], int(st[3]); k += gap
             if k >= na: k = rng.randrange(na)
-            g = {'none': 'gp=-1', 'exact': 'gp=keep', 'short1': f'gp=REL-1', 'back': 'gp=REL-5000', 'zero': 'gp=0', 'far': 'gp=REL+5000'}[gk]
+            g = {'none': 'gp=-1', 'exact': 'gp=keep', 'short1': f'gp=REL-1', 'back': 'gp=REL-5000', 'zero': 'gp=0', 'far': 'gp=REL+5000', 'neg': 'gp=-5'}[gk]
             ls.append(f"{'psyn' if op == 'syn' else 'ptrk'} 0 {k} {g} eos={eos}" + (f' no={3 + k}' if True else ''))
             ls.append('pout 0'); k += 1
         elif op == 'read': ls.append(f'pread 0 {st[1]}')
         elif op == 'rest': ls.append('prest 0')
+        elif op == 'lap': ls.append('plap 0')
         elif op == 'hr': ls.append(f'phr 0 {st[1]}')
     ls += ['pout 0', 'pread 0 -1', 'pclr 0 bdci']
     return Scn(f'tla-{i}-L{l}', ls, 'tla-adversarial', budget=30)
